@@ -95,7 +95,13 @@ def run(ctx):
                 'or raised vs the model, and for proxied handles the recorded sequence of DELETE / INSERT / COMMIT / CLOSE calls '
                 'vs the model. Exhaustive over these parameters. Non-trivial: a failing source or prior contents.')
     ctx.assumptions += ['sqlite3 transaction semantics (implicit transaction for DML, rollback on close); create/drop (DDL) are outside the quantifier']
-    ctx.prove(['PetlProofs.Props.C17'], REQUIRED)
+    from translators import fingerprints as _fp
+    try:
+        _fpi = _fp.generate()
+        ctx.bridge('translator: fingerprints of the petl functions the hand-written models mirror (%d bodies)' % _fpi['names'], True)
+    except Exception as e:   # noqa
+        ctx.bridge('translator: source fingerprints extracted', False, repr(e))
+    ctx.prove(['PetlProofs.Props.C17', 'PetlProofs.Snapshot.C17'], REQUIRED + ['Petl.Snapshot.C17_sources_as_validated'])
     tmpd = tempfile.mkdtemp(prefix='petl_c17_')
     lines, metas = [], []
     maxrows = 4 if ctx.thorough() else 3
